@@ -137,8 +137,14 @@ type c48Concrete struct {
 func c48YAML(es []c48Concrete, pform string) string {
 	var sb strings.Builder
 	sb.WriteString("lighthouse:\n  calculated_remotes:\n")
+	last := ""
 	for _, e := range es {
-		fmt.Fprintf(&sb, "    %q:\n      - mask: %q\n", e.rng.String(), e.mask.String())
+		// entries of one range are the items of that range's list
+		if r := e.rng.String(); r != last {
+			fmt.Fprintf(&sb, "    %q:\n", r)
+			last = r
+		}
+		fmt.Fprintf(&sb, "      - mask: %q\n", e.mask.String())
 		if pform == "str" {
 			fmt.Fprintf(&sb, "        port: \"%d\"\n", e.port)
 		} else {
@@ -229,6 +235,9 @@ func TestVerif_C48(t *testing.T) {
 				}
 				if len(want) > 0 {
 					res.Hit("produced:" + afam)
+					if len(want) > 1 {
+						res.Hit("produced:several-entries-of-one-range")
+					}
 				} else {
 					res.Hit("not-produced:" + afam)
 				}
